@@ -18,6 +18,7 @@ def spec_c11(h, segs, extras, states):
     cfg, rc, script, events = h
     fails = []
     outs = flat_outs(extras)
+    gated_hist = any(e.split(":")[0] in ("G", "R") for e in events)
     # --- announcements: per device strictly alternating True / False, starting with True ------
     last = {}
     created = {}
@@ -31,7 +32,9 @@ def spec_c11(h, segs, extras, states):
             if val == 0 and a[2] != 0:
                 fails.append(("marks itself disconnected before telling the devices",
                               f"device {addr} told connected=False while Protocol.connected was still set (event {i}, t={t})"))
-            if last.get(addr, 0) == val:
+            # (a device whose creation is still inside a slow new-device callback is not in the device map yet, so
+            # it legitimately misses the connected=False of a loss in that window: True may repeat in gated histories)
+            if last.get(addr, 0) == val and not (gated_hist and val == 1):
                 what = "connected=False" if val == 0 else "connected=True"
                 fails.append(("every known device told exactly once per loss / re-establishment",
                               f"device {addr} told {what} twice in a row (event {i}, t={t})"))
@@ -100,8 +103,9 @@ def spec_c11(h, segs, extras, states):
         if name == "open" and a[0] == 0:
             tid += 1
             here = by_time[(i, t)]
+            published = set(extras[i - 1]["data_ids"]) if i > 0 else set()
             for addr, (ci, ct) in known.items():
-                if (ci, ct) < (i, t) and ("ann", addr, 1) not in here:
+                if (ci, ct) < (i, t) and addr in published and ("ann", addr, 1) not in here:
                     fails.append(("after re-establishment devices see connected=True",
                                   f"device {addr} not told connected=True at t={t} (transport {tid})"))
             if not any(o[0] == "tx" and o[1] == tid for o in here):
@@ -116,10 +120,32 @@ def spec_c11(h, segs, extras, states):
                           f"after event {i}: producer={c['p']} consumers={c['k']} lost={c['l']} reconnect={c['r']} "
                           f"stray={c['po'] + c['other']} (consumers_count={cfg}); tasks: {x['names']}"))
             break
+    # --- consumers are replaced: whenever connected (and no user callback is holding a frame) exactly cfg run ---
+    for i, x in enumerate(extras):
+        if states[i]["c"] == "1" and not x.get("gate_closed") and x["classes"]["k"] != cfg:
+            fails.append(("frames reach the same device objects as before / background tasks stay constant",
+                          f"after event {i} the protocol is connected with {x['classes']['k']} frame consumer(s) instead of {cfg}"))
+            break
+    # --- frames reach the devices: every frame for us handed to a reading producer is delivered ----------------
+    if extras and not extras[-1].get("gate_closed"):
+        fed = extras[-1].get("fed", [])
+        gated = any(e.split(":")[0] in ("G", "R") for e in events)
+        if states[-1]["c"] == "1" or not gated:
+            want = {}
+            for (_, addr, kind) in fed:
+                want[(addr, kind)] = want.get((addr, kind), 0) + 1
+            got = {}
+            for (i, t, name, *a) in outs:
+                if name == "deliver":
+                    got[(a[0], a[1])] = got.get((a[0], a[1]), 0) + 1
+            for key, n in want.items():
+                if got.get(key, 0) != n:
+                    fails.append(("frames reach the same device objects as before",
+                                  f"{n} frame(s) of kind {key[1]} from device {key[0]} were received, {got.get(key, 0)} reached the device object"))
     # --- same device objects --------------------------------------------------------------------
     for i, x in enumerate(extras):
         for a, did in x["dev_ids"].items():
-            if x["data_ids"].get(a) != did:
+            if a in x["data_ids"] and x["data_ids"][a] != did:
                 fails.append(("frames reach the same device objects as before", f"device {a} replaced after event {i}"))
     return fails
 
